@@ -61,7 +61,7 @@ theorem prog_syncChain {e : Env} {i : Nat} (fuel : Nat) :
             (fun b' hb' => by have := hgp b' hb'; omega) (fun b' hb' => by have := hgc b' hb'; omega) rn.cache
           obtain ⟨r2, _⟩ := reset0_fields e (postBlock e w.nd b) ((e.prop b.p).ts * 1000000)
           have g1 : Good e as i ((w.upd fun nd => postBlock e nd b).upd fun nd => reset e nd 0 ((e.prop b.p).ts * 1000000)) :=
-            ⟨h.g, r1, h.outs, by show (reset e (postBlock e w.nd b) 0 _).bi ≠ 0; rw [r2]; omega, h.lt⟩
+            ⟨h.g, r1, h.outs, h.blk, by show (reset e (postBlock e w.nd b) 0 _).bi ≠ 0; rw [r2]; omega, h.lt⟩
           rw [initConsensus_eq]
           obtain ⟨as2, x2, g2⟩ := prog_initTail (kok_onReceive e i fuel) g1 0
           obtain ⟨as3, x3, g3⟩ := ih as2 _ g2
